@@ -36,6 +36,7 @@ CONSTANTS
   MaxRebootAsks,  \* bound on reboot-wait iterations
   MaxCrashes,     \* bound on process deaths per behaviour
   RestartRuns,    \* what the embedder configures on a restart: records [os, apps]
+  FailSets,       \* sets of storage operations [k, n] that fail; one is chosen per behaviour
   Mut             \* "none" or the name of a seeded design regression (model mutants)
 
 VARIABLES st, obs, g, script
@@ -71,18 +72,25 @@ Put(m, k, v) == [x \in (DOMAIN m) \cup {k} |-> IF x = k THEN v ELSE m[x]]
 Del(m, k) == [x \in (DOMAIN m) \ {k} |-> m[x]]
 
 \* a sequence of storage operations, each its own gated call: lines + resulting store + clock
+\* The store also carries the ordinal of each kind of operation and the set of operations scripted to fail
+\* (records [k, n]): a failing write / remove / commit is answered "err" and has no effect (storage.rs:27-105).
+Fails(store, k) == [k |-> k, n |-> store.cnt[k] + 1] \in store.fail
+Bump(store, k) == [store EXCEPT !.cnt[k] = @ + 1]
 RECURSIVE StRun(_, _, _, _)
 StRun(ops, store, c, acc) ==
   IF ops = <<>> THEN [lines |-> acc, store |-> store, clk |-> c]
-  ELSE LET o == Head(ops) IN
+  ELSE LET o == Head(ops)
+           bad == Fails(store, o.k)
+           ans == IF bad THEN "err" ELSE "ok"
+           s1 == Bump(store, o.k) IN
        IF o.k = "st.set"
-         THEN StRun(Tail(ops), [store EXCEPT !.pend = Put(@, o.key, o.v)], Tick(c),
-                    Append(acc, Stamp([k |-> "st.set", key |-> o.key, v |-> o.v, ans |-> "ok"], c)))
+         THEN StRun(Tail(ops), IF bad THEN s1 ELSE [s1 EXCEPT !.pend = Put(@, o.key, o.v)], Tick(c),
+                    Append(acc, Stamp([k |-> "st.set", key |-> o.key, v |-> o.v, ans |-> ans], c)))
        ELSE IF o.k = "st.rm"
-         THEN StRun(Tail(ops), [store EXCEPT !.pend = Del(@, o.key)], Tick(c),
-                    Append(acc, Stamp([k |-> "st.rm", key |-> o.key, ans |-> "ok"], c)))
-       ELSE StRun(Tail(ops), [store EXCEPT !.comm = store.pend], Tick(c),
-                  Append(acc, Stamp([k |-> "st.commit", snap |-> store.pend, ans |-> "ok"], c)))
+         THEN StRun(Tail(ops), IF bad THEN s1 ELSE [s1 EXCEPT !.pend = Del(@, o.key)], Tick(c),
+                    Append(acc, Stamp([k |-> "st.rm", key |-> o.key, ans |-> ans], c)))
+       ELSE StRun(Tail(ops), IF bad THEN s1 ELSE [s1 EXCEPT !.comm = store.pend], Tick(c),
+                  Append(acc, Stamp([k |-> "st.commit", snap |-> store.pend, ans |-> ans], c)))
 
 SetOrRm(key, opt) == IF IsSome(opt) THEN [k |-> "st.set", key |-> key, v |-> opt[1]] ELSE [k |-> "st.rm", key |-> key]
 TruncWall(t) == [s |-> t.s, ns |-> (t.ns \div 1000) * 1000]
@@ -145,7 +153,8 @@ CkInit == [params |-> NoParams, sid |-> 0, attempt |-> 1, ucAns |-> NoAns, ucRes
 Init ==
   /\ st = [pc |-> "B0", clk |-> [w |-> 0, m |-> 0],
            ctx |-> [poll |-> None, fails |-> 0, lut |-> EmptyLut, lct |-> EmptyLut, next |-> None],
-           apps |-> Apps0, store |-> [pend |-> <<>>, comm |-> <<>>],
+           apps |-> Apps0, store |-> [pend |-> <<>>, comm |-> <<>>, fail |-> {},
+                                      cnt |-> [k \in {"st.set", "st.rm", "st.commit"} |-> 0]],
            ids |-> [rid |-> 0, sid |-> 0, nonce |-> 0, tid |-> 0, req |-> 0],
            cnt |-> [uc |-> 0, ev |-> 0, ping |-> 0, plan |-> 0, start |-> 0, install |-> 0, needed |-> 0,
                     allowed |-> 0, check |-> 0, next |-> 0, idle |-> 0, evs |-> 0],
@@ -170,11 +179,15 @@ RunCfg == RunCfgOf("1.0", Apps0)
 (* B0: build + load (builder.rs:276-316); storage is empty in this model   *)
 (* so the load changes nothing.  R1: validity gate (:308-317).             *)
 (***************************************************************************)
+RECURSIVE SetToScript(_)
+SetToScript(fs) == IF fs = {} THEN <<>>
+                   ELSE LET f == CHOOSE f \in fs : TRUE IN Ans(f.k, f.n, "err") \o SetToScript(fs \ {f})
 B0_Start ==
   /\ st.pc = "B0"
   /\ Emit(<<Stamp([k |-> "cfg", id |-> "tlc", run |-> RunCfg, store |-> <<>>], st.clk)>>)
-  /\ st' = [st EXCEPT !.pc = IF Mode = "oneshot" THEN "P1" ELSE "R4"]
-  /\ UNCHANGED script
+  /\ \E fs \in FailSets :
+       /\ st' = [st EXCEPT !.pc = IF Mode = "oneshot" THEN "P1" ELSE "R4", !.store.fail = fs]
+       /\ script' = script \o SetToScript(fs)
 
 (***************************************************************************)
 (* Continuous operation: R5 next time, R6 arm, R7 select, R8 allowed.      *)
@@ -275,7 +288,7 @@ Crash(run) ==
      /\ Emit(<<Stamp([k |-> "crash", at |-> at], st.clk)>> \o gone
              \o <<Stamp([k |-> "restart", run |-> RunCfgOf(run.os, run.apps), store |-> comm], st.clk)>>)
      /\ script' = script \o Stim(at, n, [s |-> "crash", run |-> [os_version |-> run.os, apps |-> run.apps]])
-     /\ st' = [st EXCEPT !.pc = "R4", !.store = [pend |-> comm, comm |-> comm], !.ctx = LoadCtx(comm), !.apps = apps1,
+     /\ st' = [st EXCEPT !.pc = "R4", !.store.pend = comm, !.ctx = LoadCtx(comm), !.apps = apps1,
                          !.ck = CkInit, !.rq = [kind |-> "none", apps |-> <<>>, ret |-> "none", res |-> "none", ans |-> NoAns],
                          !.wait = [untilTid |-> 0, forTid |-> 0, untilFired |-> FALSE, forFired |-> FALSE, rbTid |-> 0, rbFired |-> FALSE],
                          !.ctlq = <<>>, !.inWfr = FALSE, !.respOwed = <<>>, !.nAsk = 0,
@@ -521,15 +534,21 @@ P12_FirstSeen ==
   /\ st.pc = "P12"
   /\ LET lost == IF st.rq.res = "ok" THEN <<>> ELSE LostLines(1, st.clk)
          same == Has(st.store.pend, "install_plan_id") /\ st.store.pend["install_plan_id"] = "plan1"
+         now == [s |-> st.clk.w, ns |-> 123456789]
+         \* 1st write fails => give up (now); 2nd fails => forget the plan id (result ignored), no commit (now)
+         r1 == StRun(<<[k |-> "st.set", key |-> "install_plan_id", v |-> "plan1"]>>, st.store, st.clk, <<>>)
+         ok1 == r1.lines[1].ans = "ok"
+         r2 == StRun(<<[k |-> "st.set", key |-> "update_first_seen_time", v |-> TruncWall(WallOf(st.clk))]>>, r1.store, r1.clk, r1.lines)
+         ok2 == r2.lines[2].ans = "ok"
+         r3 == IF ok2 THEN StRun(Commit, r2.store, r2.clk, r2.lines)
+               ELSE StRun(<<[k |-> "st.rm", key |-> "install_plan_id"]>>, r2.store, r2.clk, r2.lines)
          r == IF same THEN [lines |-> <<>>, store |-> st.store, clk |-> st.clk]
-              ELSE StRun(<<[k |-> "st.set", key |-> "install_plan_id", v |-> "plan1"],
-                           [k |-> "st.set", key |-> "update_first_seen_time", v |-> TruncWall(WallOf(st.clk))]>>
-                         \o Commit, st.store, st.clk, <<>>) IN
+              ELSE IF ~ok1 THEN r1 ELSE r3 IN
      /\ Emit(lost \o r.lines)
      /\ st' = [st EXCEPT !.pc = "P13", !.store = r.store, !.clk = r.clk, !.ck.startW = st.clk.w,
                          !.ck.firstSeen = IF same /\ Has(st.store.pend, "update_first_seen_time")
                                             THEN st.store.pend["update_first_seen_time"]
-                                            ELSE [s |-> st.clk.w, ns |-> 123456789]]
+                                            ELSE now]
   /\ UNCHANGED script
 
 \* :1044-1085 join(perform_install, yield_progress)
